@@ -174,8 +174,11 @@ StringDictionaryRPFC::StringDictionaryRPFC(IteratorDictString *it,
 
     for (bucket = 1; bucket <= buckets; bucket++) {
       // Checking the available space in textStrings and
-      // realloc if required
-      while ((bytesStrings + (bucketsize * 1000)) > reservedStrings)
+      // realloc if required: a bucket takes its header plus up to
+      // 4 bytes per encoded symbol of its internal strings
+      size_t required = headers[bucket].size() +
+                        4 * (beginnings[bucket] - beginnings[bucket - 1]) + 8;
+      while ((bytesStrings + required) > reservedStrings)
         reservedStrings = Reallocate(&textStrings, reservedStrings);
 
       bytes = 0;
